@@ -111,7 +111,7 @@ class RiscvParser(Parser):
             (
                 pp.Combine("0x" + pp.Word(pp.hexnums))
                 | pp.Combine("0b" + pp.Word("01"))
-                | pp.Word(pp.nums)
+                | pp.Regex(r"[1-9][0-9]*|0+(?![0-9])")
             )
         )
     )
